@@ -789,6 +789,9 @@ Error Message: {}
         instructions = m.get_text()
         m.get_binary()  # lang
         prompts = m.get_int()
+        # every prompt is a string plus a boolean, ie at least 5 bytes
+        if prompts > len(m.get_remainder()) // 5:
+            raise SSHException("Info request announces more prompts than it has")
         prompt_list = []
         for i in range(prompts):
             prompt_list.append((m.get_text(), m.get_boolean()))
@@ -807,6 +810,11 @@ Error Message: {}
         if not self.transport.server_mode:
             raise SSHException("Illegal info response from server")
         n = m.get_int()
+        # every response is a string, ie at least 4 bytes
+        if n > len(m.get_remainder()) // 4:
+            raise SSHException(
+                "Info response announces more responses than it has"
+            )
         responses = []
         for i in range(n):
             responses.append(m.get_text())
